@@ -119,6 +119,29 @@ def gen_script(rng, max_msg, stalls=False):
             steps.append(dict(c=c, eof=True))
     if stalled is not None:
         unstall()
+    if stalls and rng.random() < 0.6:
+        # a pipelined burst: many small requests of ONE connection back to back, several times the size of the read buffer. In
+        # the reference run they arrive one per wake-up; a 'burst' policy makes all of them readable at once (nobody else is
+        # active meanwhile, so the order of complete messages is the same)
+        c = rng.randrange(nconn)
+        total = int(8 * max_msg * rng.choice([0.4, 0.9, 1.0, 1.02, 1.1, 2.05, 3.3]))
+        size, g = 0, len(steps)
+        pos = rng.randrange(max(1, len(steps) // 2), len(steps) + 1)
+        # not behind the end of that connection's stream
+        for k_, st_ in enumerate(steps):
+            if st_["c"] == c and (st_.get("eof") or st_.get("ends")):
+                pos = min(pos, k_)
+                break
+        burst = []
+        while size < total:
+            idc[0] += 1
+            m = {"id": idc[0] + 20000, "method": rng.choice(["info", "info", "nosuch", "get"])}
+            if m["method"] == "get":
+                m["params"] = {"path": {"equals": "none"}}
+            u = frame(c, json.dumps(m).encode())
+            burst.append(dict(c=c, unit=u, burst=g))
+            size += len(u)
+        steps[pos:pos] = burst
     # a unit that is longer than the read buffer takes effect (ends the connection) as soon as its length field is
     # complete, not when its last byte arrives: only a shorter prefix of it may be delivered early
     for st in steps:
@@ -221,12 +244,27 @@ def execute(binary, conns, steps, policy, rng, timeout=60):
             steps[i]["_next_same"] = nxt.get(steps[i]["c"])
             nxt[steps[i]["c"]] = i
         replied = [0] * len(conns)
+        skip_to = -1
         for i, st in enumerate(steps):
             c = st["c"]
             cur[0] = i
-            if ended[c]:
+            if ended[c] or i < skip_to:
                 continue
             ensure_connected(c)
+            if "burst" in st and policy.get("burst") and not pre[c]:
+                j = i
+                while j < len(steps) and steps[j].get("burst") == st["burst"]:
+                    j += 1
+                data = b"".join(x["unit"] for x in steps[i:j])
+                for ch in wire.chunkings(data, policy.get("burst"), rng):
+                    sim.send(fds[c], ch)
+                out["bursts"] = out.get("bursts", 0) + 1
+                out["burst_bytes"] = max(out.get("burst_bytes", 0), len(data))
+                skip_to = j
+                cur[0] = j - 1
+                sim.settle(**policy.get("batch", {}))
+                pump()
+                continue
             if st.get("eof"):
                 sim.eof(fds[c])
                 ended[c] = True
@@ -325,6 +363,9 @@ POLICIES = [
     dict(name="k2+coalesce+scribble-zero", chunks=2, coalesce=0.8, scribble=1),
     dict(name="whole+in-out-grouped", chunks="whole", group_inout=1.0),
     dict(name="k3+in-out-grouped", chunks=3, group_inout=0.8, coalesce=0.3),
+    dict(name="whole+burst", chunks="whole", burst="whole"),
+    dict(name="k5+burst-in-pieces", chunks=5, burst=1400, coalesce=0.3),
+    dict(name="whole+burst+batch1", chunks="whole", burst="whole", batch={"max": 1}),
 ]
 
 
@@ -358,15 +399,25 @@ def segdiff(case, res):
             return
         res.stats["variant_runs"] += 1
         res.stats["readable_and_writable_in_one_event"] += var.get("grouped", 0)
+        res.stats["pipelined_bursts"] += var.get("bursts", 0)
+        res.stats["pipelined_burst_bytes"] += var.get("burst_bytes", 0)
         res.sigs.add(("variant", pol["name"], min(nmsg // 10, 6), tuple(sorted(set(conns)))))
         if var["crash"]:
             res.viol.append(("crash/" + str(var["crash"]), "policy %s\n%s" % (pol["name"], var["detail"])))
             return
+        def burst_start(k):
+            # the steps of a pipelined burst are one step as far as "when" is concerned
+            if k is None or not (0 <= k < len(steps)) or "burst" not in steps[k]:
+                return k
+            while k > 0 and steps[k - 1].get("burst") == steps[k]["burst"]:
+                k -= 1
+            return k
+
         def same_release(v, r, early):
             # a FIN that was delivered together with the data of step k ends the connection in step k; in the reference run the
             # FIN is step k+1 of its own (unless the data of step k already ended the connection)
             for ci, (a, b) in enumerate(zip(v, r)):
-                if a == b or (early.get(ci) == a and b == a + 1):
+                if a == b or (early.get(ci) == a and b == a + 1) or (a is not None and b is not None and burst_start(a) == burst_start(b)):
                     continue
                 return False
             return True
